@@ -14,7 +14,7 @@ class UnitS(Unit):
         out = Out()
         out.spec(HEAD)
         self._trusted = prelude(out, ['ax-rc', 'ax-parse', 'ax-string-eq', 'ax-tryfrom', 'ax-from-unsigned',
-                                      'stdspec-parse', 'stdspec-chars', 'stdspec-bytelen', 'ax-bytelen', 'stdspec-contains'],
+                                      'stdspec-parse', 'stdspec-drop', 'stdspec-chars', 'stdspec-bytelen', 'ax-bytelen', 'stdspec-contains'],
                                 [('dep_reqwest.rs', ['reqwest-error', 'reqwest-client']),
                                  ('dep_yaserde.rs', ['io-traits', 'io-write-trait-opaque', 'io-traits-end', 'xml', 'yaserde-begin', 'yaserde-traits', 'yaserde-end'])])
         hc = HelpersContent(repo)
